@@ -3,6 +3,7 @@ package main
 import (
 	"encoding/json"
 	"fmt"
+	"go/ast"
 	"os"
 	"os/exec"
 	"path/filepath"
@@ -19,6 +20,8 @@ type FuncRun struct {
 	Models []string
 	Lemmas []string
 	Globs  []string // package-level variables the function (with its inlined callees) reads
+	// EstabOnly: in the cone only as an establisher of a representation invariant (invariant projections only)
+	EstabOnly bool
 }
 
 func (v *Verifier) runFunc(name string) *FuncRun {
@@ -111,7 +114,84 @@ func (v *Verifier) cone(p string) (map[string]*FuncRun, []string) {
 			}
 		}
 	}
+	// representation invariants: the functions of the cone assume inv/wf3/wfs of their operands; whatever produces or
+	// changes a value of those types must establish the invariant, or the assumption is empty. Every contracted
+	// function of the root package with such a receiver or result that is not in the cone already joins it with the
+	// invariant part of its postconditions only (its other obligations belong to the properties it is tagged with).
+	relied := map[string]bool{}
+	for n := range runs {
+		if fc := v.specs.Funcs[n]; fc != nil {
+			for t := range reliedInvariantTypes(fc) {
+				relied[t] = true
+			}
+		}
+	}
+	if len(relied) > 0 {
+		var names []string
+		for n := range v.specs.Funcs {
+			names = append(names, n)
+		}
+		sort.Strings(names)
+		for _, n := range names {
+			if _, in := runs[n]; in || !strings.HasPrefix(n, "secp256k1.") {
+				continue
+			}
+			fr := v.prog.Lookup(n)
+			if fr == nil || strings.HasPrefix(v.prog.Fset.Position(fr.Decl.Pos()).Filename, clientsDir) {
+				continue
+			}
+			if !establishes(fr, relied) {
+				continue
+			}
+			if v.invProjFor == nil {
+				v.invProjFor = map[string]bool{}
+			}
+			v.invProjFor[n] = true
+			r := v.runFunc(n)
+			delete(v.invProjFor, n)
+			if r.Err == nil {
+				var keep []*Oblig
+				for _, o := range r.Obs {
+					if strings.HasSuffix(o.Name, "/inv") {
+						keep = append(keep, o)
+					}
+				}
+				if len(keep) == 0 {
+					continue
+				}
+				r.Obs = keep
+			}
+			r.EstabOnly = true
+			runs[n] = r
+		}
+	}
 	return runs, roots
+}
+
+// establishes: fr has a receiver or a result of (pointer to) one of the relied types.
+func establishes(fr *FuncRef, relied map[string]bool) bool {
+	isT := func(e ast.Expr) bool {
+		if s, ok := e.(*ast.StarExpr); ok {
+			e = s.X
+		}
+		id, ok := e.(*ast.Ident)
+		return ok && relied[id.Name]
+	}
+	if fr.Decl.Recv != nil {
+		for _, f := range fr.Decl.Recv.List {
+			if isT(f.Type) {
+				return true
+			}
+		}
+	}
+	if fr.Decl.Type.Results != nil {
+		for _, f := range fr.Decl.Type.Results.List {
+			if isT(f.Type) {
+				return true
+			}
+		}
+	}
+	return false
 }
 
 // globalsOf lists the package-level variables read inside a cone.
@@ -576,6 +656,20 @@ func (v *Verifier) writeEvidence(prop, tier string, seed int, runs map[string]*F
 			"analysed":          append([]string{defaultCfg.Name}, v.altCfgs...),
 			"compared_file_set": names,
 			"note":              "a configuration is analysed separately only when it selects a different set of non-test files than linux/amd64; on a tree without build constraints all configurations compile the same files",
+		}
+	}
+	{
+		var est []string
+		for _, n := range names {
+			if runs[n].EstabOnly {
+				est = append(est, n)
+			}
+		}
+		if len(est) > 0 {
+			ev["coverage"].(map[string]interface{})["invariant_establishers"] = map[string]interface{}{
+				"functions": est,
+				"note":      "in the cone only because they produce or change values whose representation invariant (inv/wf3/wfs) the property's own functions assume; only the invariant part of their postconditions is an obligation of this property",
+			}
 		}
 	}
 	if v.specCheck != nil {
